@@ -323,6 +323,14 @@ def _gap(mols):
             if wl.local_swap_ok(col, adj) or wl.gap_b(m, orb) or wl.gap_a(m, orb) or wl.odd_label_orbit(m, orb) or \
                     wl.annulene_stereo(m):
                 return True
+            # canonical strings are taken after kekule()+thiele(): where the minimum cycle basis is not unique the aromatic form
+            # depends on atom order (C05 known finding)
+            from ..oracles import mcb
+            try:
+                if not mcb.analyse(mcb.mol_adj(m))['unique'] and any(b.order in (2, 4) and b.in_ring for *_, b in m.bonds()):
+                    return True
+            except OverflowError:
+                return True
         except TimeoutError:
             return True
     return False
@@ -360,6 +368,12 @@ def check_reactor(case, rec):
     if rxns:
         rec.nt((case['rtemplate'], tuple(str(m) for m in mols)))
     total_in = sum(len(m) for m in mols)
+    # fix_aromatic_rings=False was requested and the inputs are Kekule forms: no product bond may have become aromatic
+    if not any(b.order == 4 for x in mols for *_, b in x.bonds()):
+        for r in rxns:
+            if any(b.order == 4 for p in r.products for *_, b in p.bonds()):
+                rec.fail('ring-fixing-option', f'{label}: fix_aromatic_rings=False, Kekule inputs, but a product has aromatic bonds: {str(r)!r}')
+                return
     for r in rxns:
         nums = [n for p in r.products for n in p]
         if len(nums) != len(set(nums)):
